@@ -79,6 +79,15 @@ var c11Pins = []c11Pin{
 		Docs: []string{`{"e":"green","inl":"q","list":[{"v":1,"next":{"v":2}},{}],"byKey":{"k":{"v":3}}}`, `{"e":"red","list":[]}`}},
 }
 
+// c11Short: at most 60 runes of a value's JSON text (never cuts a multi-byte character)
+func c11Short(v JV) string {
+	r := []rune(v.json())
+	if len(r) > 60 {
+		return string(r[:60]) + "…"
+	}
+	return string(r)
+}
+
 var c11ExcRe = regexp.MustCompile(`^err ([A-Za-z_.]+)`)
 
 // paths of the document's null-valued members, in document order
@@ -656,7 +665,7 @@ func init() {
 					pyOut, pyOK = got, true
 					if p, xo, y, diff := c01Diff(d, got, "$"); diff {
 						_, present := c11Lookup(d, p)
-						verdict = fmt.Sprintf("FAIL py-reenc-differs class=%s at=%s %s path=%s orig=%s got=%s", c11Class(xo, y, present), c11At(c.Defs, d, p), info, p, c01Short(xo), c01Short(y))
+						verdict = fmt.Sprintf("FAIL py-reenc-differs class=%s at=%s %s path=%s orig=%s got=%s", c11Class(xo, y, present), c11At(c.Defs, d, p), info, p, c11Short(xo), c11Short(y))
 					} else if p, bad := c11AddedNull(d, got, "$"); bad {
 						verdict = fmt.Sprintf("FAIL py-reenc-differs class=null-member-added at=%s %s path=%s", c11At(c.Defs, d, p), info, p)
 					} else if err := rv.validate(got); err != nil {
@@ -688,7 +697,7 @@ func init() {
 					if p, xp, y, diff := c01Diff(pyOut, goOut, "$"); diff {
 						implB = "differ"
 						// xp = Python's value, y = Go's value at the first differing path
-						verdictB = fmt.Sprintf("FAIL py-go-differ class=%s at=%s %s path=%s py=%s go=%s", c11ClassB(d, p, xp, y), c11At(c.Defs, d, p), info, p, c01Short(xp), c01Short(y))
+						verdictB = fmt.Sprintf("FAIL py-go-differ class=%s at=%s %s path=%s py=%s go=%s", c11ClassB(d, p, xp, y), c11At(c.Defs, d, p), info, p, c11Short(xp), c11Short(y))
 					} else {
 						implB = "same"
 						if canonJSON([]byte(pyOut.json())) != canonJSON([]byte(goOut.json())) {
